@@ -235,3 +235,14 @@ package proxy
 //@ use casketfile/contracts_verif.go:dispenser_api
 //@ use @verif/specs/stdlib.spec:stdlib
 //@ use @verif/specs/stdlib.spec:casket_api
+
+//@ unit reverse_proxy_sweep props=C19,C04 files=reverseproxy.go nilchecks=on nonnil_params=on filter=`proxy\.ReverseProxy\)\.ServeHTTP$|proxy\.(copyHeader|singleJoiningSlash|isWebsocket|pooledIoCopy|skipTerminalControlCharacters)$`
+//@ // backend status lines and headers are peer data: safety sweep of the response side, with the WriteHeader sink precondition
+//@ use @verif/specs/stdlib.spec:stdlib
+//@ use @verif/specs/stdlib.spec:nethttp_sinks
+//@ use @verif/specs/stdlib.spec:nethttp_api
+//@ // the websocket branch panics by design when the writer cannot be hijacked (documented, tested): may_panic
+//@ // representation invariant of proxies built by NewSingleHostReverseProxy: a dialer is set
+//@ func (*ReverseProxy).ServeHTTP
+//@   may_panic
+//@   requires rp != nil && rp.dialer != nil && rw != nil && outreq != nil && outreq.URL != nil && outreq.Header != nil
